@@ -668,6 +668,12 @@ func (c *Conn) cancel(ctx *Ctx) {
 	// resetting, and the buffer stops being ours as soon as RoundTrip returns.
 	c.deletePending(id)
 
+	// The reset is queued before the slot is given back: the write loop sends
+	// what is queued before it writes a new request, so a request that gets in
+	// on this slot cannot reach the server before the RST_STREAM that freed it,
+	// and the server never sees more streams than it allows.
+	c.cancelStream(id, StreamCanceled)
+
 	// Drop the stream here rather than waiting for a response that may never
 	// come. Leaving it queued kept the Ctx alive for the life of the connection
 	// and, worse, left openStreams counting a stream that was over, so enough
@@ -675,8 +681,6 @@ func (c *Conn) cancel(ctx *Ctx) {
 	if c.takeReq(id) {
 		atomic.AddInt32(&c.openStreams, -1)
 	}
-
-	c.cancelStream(id, StreamCanceled)
 }
 
 // cancelStream resets a stream that cannot be finished. The caller has already
@@ -785,7 +789,13 @@ func (c *Conn) runWriteLoop() (lastErr error) {
 		case <-c.done:
 			return lastErr
 		case ctx := <-c.in: // sending requests
-			err := c.writeRequest(ctx)
+			// What was queued before this request was let in goes first: a
+			// RST_STREAM among it is what made room for the request.
+			err := c.flushOut()
+			if err == nil {
+				err = c.writeRequest(ctx)
+			}
+
 			if err != nil {
 				ctx.resolve(err)
 
@@ -853,6 +863,24 @@ func (c *Conn) lockWrites() {
 	}
 }
 
+// flushOut writes the frames that are queued right now.
+func (c *Conn) flushOut() error {
+	for {
+		select {
+		case fr := <-c.out:
+			err := c.writeFrame(fr)
+
+			ReleaseFrameHeader(fr)
+
+			if err != nil {
+				return err
+			}
+		default:
+			return nil
+		}
+	}
+}
+
 func (c *Conn) writeFrame(fr *FrameHeader) error {
 	c.lockWrites()
 	defer c.bwLck.Unlock()
@@ -868,18 +896,18 @@ func (c *Conn) writeFrame(fr *FrameHeader) error {
 }
 
 func (c *Conn) finish(r *Ctx, stream uint32, err error) {
+	// A response that is complete before the request body has gone out leaves
+	// the stream open on the server's side, counting against its limit: the
+	// rest is not coming, so say so. Before the slot is given back, see cancel.
+	if c.deletePending(stream) && err == nil {
+		c.cancelStream(stream, StreamCanceled)
+	}
+
 	// Drop the stream before resolving: once RoundTrip returns it may hand the
 	// Ctx back to a pool, and it can only do that when nothing here still
 	// refers to it.
 	if c.takeReq(stream) {
 		atomic.AddInt32(&c.openStreams, -1)
-	}
-
-	// A response that is complete before the request body has gone out leaves
-	// the stream open on the server's side, counting against its limit: the
-	// rest is not coming, so say so.
-	if c.deletePending(stream) && err == nil {
-		c.cancelStream(stream, StreamCanceled)
 	}
 
 	r.markFinished()
@@ -987,36 +1015,33 @@ func (c *Conn) dispatch(fr *FrameHeader) bool {
 		if c.endsStream(fr) {
 			c.finish(r, fr.Stream(), nil)
 		}
-	} else {
-		c.finish(r, fr.Stream(), err)
-	}
 
-	if err == nil {
 		return false
 	}
 
 	// A header block that does not decode leaves the dynamic table in a state
 	// the server's does not share: nothing after it can be trusted.
 	var connErr Error
-	if errors.As(err, &connErr) && connErr.frameType == FrameGoAway {
+
+	stop := errors.As(err, &connErr) && connErr.frameType == FrameGoAway
+	if stop {
 		c.setLastErr(err)
-
-		return true
 	}
 
-	if errors.Is(err, FlowControlError) {
-		return true
-	}
+	stop = stop || errors.Is(err, FlowControlError)
 
 	// What is left is a response turned away as malformed, which is a stream
 	// error (RFC 7540 8.1.2.6). The server has to be told: it may be part way
 	// through a body that nobody reads any more, and it keeps the stream, and
-	// its share of the concurrency limit, until it hears otherwise.
-	if fr.Type() != FrameResetStream {
+	// its share of the concurrency limit, until it hears otherwise. Before the
+	// slot is given back, see cancel.
+	if !stop && fr.Type() != FrameResetStream {
 		c.cancelStream(fr.Stream(), ProtocolError)
 	}
 
-	return false
+	c.finish(r, fr.Stream(), err)
+
+	return stop
 }
 
 // endsStream reports whether fr is the last frame of its stream. END_STREAM
